@@ -126,6 +126,8 @@ func runC02(c *vf.Case) {
 	allGE2, wouldblockMidAll, partialReads, partialWrites, errCompletions := 0, 0, 0, 0, 0
 	peerDead := false
 	overlapOps := 0
+	cancelled := 0
+	bb := sonic.NewByteBuffer()
 
 	verifyRead := func(api string, buf []byte, all bool, n int, err error) {
 		if n < 0 || n > len(buf) {
@@ -337,6 +339,24 @@ func runC02(c *vf.Case) {
 				peerDead = true
 			}
 		}
+		if (rdInFlight || wrInFlight) && r.Chance(1, 30) {
+			// Cancel completes what is in flight with an error; a ReadAll/WriteAll that had made progress must report
+			// exactly the bytes it moved (the script goes on from the reported counts)
+			c.Logf("  Cancel() with read in flight=%v write in flight=%v", rdInFlight, wrInFlight)
+			was := 0
+			if rdInFlight {
+				was++
+			}
+			if wrInFlight {
+				was++
+			}
+			o.FD.Cancel()
+			if rdInFlight || wrInFlight {
+				c.Failf("cancel-did-not-complete-operation/"+kind.String(), "Cancel returned with read in flight=%v write in flight=%v", rdInFlight, wrInFlight)
+				break
+			}
+			cancelled += was
+		}
 		switch k := r.Intn(10); {
 		case k <= 1:
 			if !rdInFlight && (!terminated || r.Chance(1, 4)) {
@@ -357,7 +377,33 @@ func runC02(c *vf.Case) {
 				}
 			}
 		case k <= 3:
-			if !wrInFlight && !peerDead {
+			if !wrInFlight && !peerDead && (bb.ReadLen() > 0 || (r.Chance(1, 8) && kind != sim.KAdapter)) {
+				// ByteBuffer.WriteTo(conn): what the call moved is consumed from the buffer and reported, what it could
+				// not move (would-block in the middle) stays for the next call - nothing is sent twice, nothing is dropped
+				if bb.ReadLen() == 0 {
+					b := make([]byte, []int{1024, 65536, 300000, 8 << 20}[r.Intn(4)]) // 8 MiB exceed what the loopback socket buffers take at once
+					vf.GenFill(b, outGen, outAccepted)
+					_, _ = bb.Write(b)
+					bb.Commit(len(b))
+				}
+				staged := bb.ReadLen()
+				n64, err := bb.WriteTo(o.FD)
+				n := int(n64)
+				c.Logf("  ByteBuffer.WriteTo(conn) with %d bytes staged -> n=%d err=%v, %d left", staged, n, err, bb.ReadLen())
+				if n < 0 || n > staged || bb.ReadLen() != staged-n {
+					c.Failf("bytebuffer-writeto-count-differs/"+kind.String(), "WriteTo with %d bytes staged returned n=%d err=%v and left %d bytes in the buffer", staged, n, err, bb.ReadLen())
+					break
+				}
+				if err != nil && !errors.Is(err, sonicerrors.ErrWouldBlock) {
+					errCompletions++
+					bb.Reset()
+				}
+				if n > 0 && n < staged {
+					c.Count("bytebuffer_writeto_cut_short", 1)
+				}
+				outAccepted += n
+				c.Count("bytebuffer_writeto_calls", 1)
+			} else if !wrInFlight && !peerDead {
 				if r.Chance(1, 6) && kind != sim.KAdapter {
 					b := make([]byte, sizes[r.Intn(5)])
 					vf.GenFill(b, outGen, outAccepted)
@@ -490,6 +536,7 @@ func runC02(c *vf.Case) {
 		}
 	}
 	c.Count("operations_started_at_the_dispatch_limit", startedAtLimit)
+	c.Count("operations_cancelled_in_flight", cancelled)
 	c.Count("all_ops_needing_ge2_wakeups", allGE2)
 	c.Count("wouldblock_mid_writeall", wouldblockMidAll)
 	c.Count("partial_reads", partialReads)
